@@ -79,7 +79,8 @@ def floors(ctx):
             "no_match_none": 100 if q else 1000, "match_is_start": 20, "sought_not_identical": 100,
             "some_vertex_lacks_attr": 100, "match_only_outside_universe": 10, "cases_with_caching_on": 100, "identical_but_unequal_value_sought": 20,
             "match_through_class_level_attribute_or_property": 100,
-            "cases_with_attribute_name_that_is_not_an_identifier": 100, "searches_over_unhashable_vertices": 50}
+            "cases_with_attribute_name_that_is_not_an_identifier": 100, "searches_over_unhashable_vertices": 50,
+            "cases_with_start_outside_the_universe": 50}
 
 
 def _matches(v, attr, val):
@@ -112,9 +113,21 @@ def _run_case(ctx, spec, si, attr, vi, absent, _shrinking, cache):
     for name, (sf, tf) in SEARCH.items():
         listed = oracles.outcome(tf, uni, start)
         if listed[0] != "ok":
-            # the corresponding traversal itself refuses this graph (set-based traversals and unhashable
-            # vertices): nothing to be the first match of
-            ctx.count("search_skipped_because_its_traversal_refuses_the_graph")
+            # the corresponding traversal itself refuses (a start vertex outside the universe; set-based
+            # traversals and unhashable vertices): it lists nothing, so there is nothing to be the first match
+            # of - the search may refuse as well or answer None, but it cannot hand out a vertex
+            ctx.count("searches_whose_traversal_refuses")
+            start_outside = uni is not None and not any(start is m for m in uni.vertices)
+            if not start_outside:
+                continue  # (e.g. unhashable vertices under a set-based traversal: the pair is outside its domain)
+            ctx.evaluated()
+            if first[name][0] == "ok" and first[name][1] is not None:
+                outside = uni is not None and not any(first[name][1] is m for m in uni.vertices)
+                ctx.violation(f"{name}:returned_vertex_although_traversal_lists_nothing" + (":outside_universe" if outside else ""),
+                              f"{tf.__name__}(uni, v{si}) raises {listed[1].__name__} and lists nothing, yet {name}(uni, v{si}, "
+                              f"{attr!r}, {val!r}) returned {g.name(first[name][1])}; classes={spec['verts']} attrs={spec.get('attrs')} "
+                              f"edges={spec['edges']} uni={spec.get('uni')}", case)
+                found.append(f"{name}:returned_vertex_although_traversal_lists_nothing")
             continue
         order = listed[1]
         if "UnhashableVertex" in spec["verts"]:
@@ -208,7 +221,7 @@ def run(ctx):
                                     ecls=graphs.ECLS_DU, vcls=graphs.VCLS_MIX):
         base.append(spec)
     base += graphs.hub_specs(frng, fanouts=(129, 260))
-    n_random = 2500 if quick else 12000
+    n_random = ctx.n(2500 if quick else 12000)
     k = 0
     for n in range(len(base) * 6 + n_random):
         if n < len(base) * 6:
@@ -240,6 +253,14 @@ def run(ctx):
         run_case(ctx, dict(spec, attrs={}), r.choice(starts), "idx", 1)
         run_case(ctx, spec, r.choice(starts), r.choice(["uid", "uid", "kind", "parity", "slot_a"]), r.randrange(12),
                  cache=r.random() < 0.3)
+        # a start vertex that is NOT a member of the universe (and carries the sought value itself)
+        if spec.get("uni") is not None:
+            outsiders = [i for i in range(nverts) if i not in spec["uni"]]
+            if outsiders and spec["uni"]:
+                so = r.choice(outsiders)
+                vi_ = r.choice(pool)
+                run_case(ctx, dict(spec, attrs={**attrs, str(so): {"key": STORED[vi_]}}), so, "key", vi_, cache=r.random() < 0.3)
+                ctx.count("cases_with_start_outside_the_universe")
         # vertices that cannot be hashed: whatever traversal lists them, its search finds the first match
         if k % 5 == 0:
             uspec = dict(spec, verts=[("UnhashableVertex" if r.random() < 0.7 else c) for c in spec["verts"]])
@@ -258,7 +279,7 @@ def run(ctx):
         if k in (3, 400) and ctx.shard == 0:
             ctx.sample({"spec": spec, "start": si, "attr": "key", "sought": repr(sought(pool[0]))})
     ctx.assumptions += [
-        "graphs hold only directed/undirected edges (searches use LNK_UNKNOWN_ERROR); start is a universe member",
+        "graphs hold only directed/undirected edges (searches use LNK_UNKNOWN_ERROR); a start vertex outside the universe is refused by the traversals, so the search may refuse or answer None",
         "attribute values compare with a total, side-effect-free ==",
         "the corresponding traversal order itself is pinned by C07",
     ]
